@@ -192,7 +192,12 @@ class FakeFS(Model):
                 return iter(self.readlines())
 
             def write(self, data):
-                self.buf += data
+                if getattr(self, 'overlay', False):
+                    # opened without truncation (os.open without O_TRUNC): what was there stays beyond what is written
+                    self.buf = self.buf[:self.pos] + data + self.buf[self.pos + len(data):]
+                    self.pos += len(data)
+                else:
+                    self.buf += data
                 fs.written[self.path] = self.buf
                 fs.files[self.path] = self.buf
                 return len(data)
@@ -222,6 +227,7 @@ class FakeFS(Model):
             return h
         open_._pyeval_model = True
         self.open = open_
+        self.Handle = Handle
 
     def os(self, cwd=None, **extra):
         """the os stand-in whose file tests and removals act on this file system"""
@@ -241,6 +247,39 @@ class FakeFS(Model):
                 raise FileNotFoundError(2, 'No such file or directory', q)
             c = fs.files[q]
             return len(c if isinstance(c, (bytes, bytearray)) else str(c).encode('utf-8'))
+        O = dict(O_RDONLY=0, O_WRONLY=1, O_RDWR=2, O_CREAT=64, O_EXCL=128, O_TRUNC=512, O_APPEND=1024)
+
+        class _Fd(Model):
+            def __init__(self, path, flags):
+                self.path, self.flags = path, flags
+
+        def os_open(path, flags, mode=0o777, **k):
+            if path not in fs.files and not flags & O['O_CREAT']:
+                raise FileNotFoundError(2, 'No such file or directory', path)
+            if path in fs.files and flags & O['O_EXCL'] and flags & O['O_CREAT']:
+                raise FileExistsError(17, 'File exists', path)
+            return _Fd(path, flags)
+
+        def os_fdopen(fd, mode='r', *a, **k):
+            if not isinstance(fd, _Fd):
+                raise OSError(9, 'Bad file descriptor')
+            fs.opened.append((fd.path, mode))
+            h = fs.Handle(fd.path, mode, k.get('newline'))
+            h.encoding = k.get('encoding')
+            if fd.flags & (O['O_WRONLY'] | O['O_RDWR']):
+                old = fs.files.get(fd.path)
+                keep = old is not None and not fd.flags & O['O_TRUNC']
+                h.buf = old if keep else (b'' if 'b' in mode else '')
+                if fd.flags & O['O_APPEND']:
+                    h.pos = len(h.buf)
+                h.overlay = True
+                fs.written[fd.path] = h.buf
+                fs.files[fd.path] = h.buf
+            elif fd.path not in fs.files:
+                raise FileNotFoundError(2, 'No such file or directory', fd.path)
+            return h
+        extra.update(O)
+        extra.update(open=os_open, fdopen=os_fdopen, close=lambda fd: None)
         return pure_os(name='posix', remove=remove, unlink=remove,
                        path_exists=lambda q: q in fs.files or q.rstrip('/') in dirs(), path_isfile=lambda q: q in fs.files,
                        path_isdir=lambda q: q.rstrip('/') in dirs() and q not in fs.files, path_getsize=getsize, **extra)
